@@ -93,4 +93,40 @@ package httpgen
 //@ emitted func bindPathParams(r *nethttp.Request, msg proto.Message, params []PathParamConfig) (verr *sebufhttp.ValidationError)
 //@ emitted func bindQueryParams(r *nethttp.Request, msg proto.Message, params []QueryParamConfig) (verr *sebufhttp.ValidationError)
 //@ emitted func bindDataBasedOnContentType(r *nethttp.Request, toBind any) (err error)
+//@   ensures one_decoder: (count("bindDataFromJSONRequest") - old(count("bindDataFromJSONRequest"))) + (count("bindDataFromBinaryRequest") - old(count("bindDataFromBinaryRequest"))) == 1
+//@   ensures decoder_verdict: (count("bindDataFromJSONRequest") > old(count("bindDataFromJSONRequest")) ==> (isNil(err) <==> lastErrNil("bindDataFromJSONRequest"))) && (count("bindDataFromBinaryRequest") > old(count("bindDataFromBinaryRequest")) ==> (isNil(err) <==> lastErrNil("bindDataFromBinaryRequest")))
+//@   at-call bindDataFromBinaryRequest requires binary_types_only: filterFlags(r.Header.Get("Content-Type")) == "application/octet-stream" || filterFlags(r.Header.Get("Content-Type")) == "application/x-protobuf"
+//@   at-call bindDataFromJSONRequest requires json_otherwise: filterFlags(r.Header.Get("Content-Type")) != "application/octet-stream" && filterFlags(r.Header.Get("Content-Type")) != "application/x-protobuf"
 //@ emitted func validateHeaders(r *nethttp.Request, serviceHeaders []*sebufhttp.Header, methodHeaders []*sebufhttp.Header) (verr *sebufhttp.ValidationError)
+
+// Route registration of the extraction schema (schema-dependent text: an instance check, labelled bounded).
+// Each route must get its own method headers, parameter tables, verb and pattern.
+//@ emitted func RegisterNoteServiceServer(server any, opts any) (err error)
+//@   ensures err == nil
+//@   ensures three_routes: count("Handle") == old(count("Handle")) + 3 && count("BindingMiddleware") == old(count("BindingMiddleware")) + 3
+//@   at-call BindingMiddleware requires service_headers: arg1 == lastRetAs("getNoteServiceHeaders", []*sebufhttp.Header)
+//@   at-call BindingMiddleware requires route1: count("BindingMiddleware") == old(count("BindingMiddleware")) ==> arg2 == lastRetAs("getGetNoteHeaders", []*sebufhttp.Header) && count("getGetNoteHeaders") == old(count("getGetNoteHeaders")) + 1 && arg3 == getNotePathParams && arg4 == getNoteQueryParams && arg5 == "GET"
+//@   at-call BindingMiddleware requires route2: count("BindingMiddleware") == old(count("BindingMiddleware")) + 1 ==> arg2 == lastRetAs("getUpdateNoteHeaders", []*sebufhttp.Header) && at("getUpdateNoteHeaders") > at("getGetNoteHeaders") && arg3 == updateNotePathParams && arg4 == updateNoteQueryParams && arg5 == "PUT"
+//@   at-call BindingMiddleware requires route3: count("BindingMiddleware") == old(count("BindingMiddleware")) + 2 ==> arg2 == lastRetAs("getListNotesHeaders", []*sebufhttp.Header) && at("getListNotesHeaders") > at("getUpdateNoteHeaders") && arg3 == listNotesPathParams && arg4 == listNotesQueryParams && arg5 == "POST"
+//@   at-call Handle requires pattern1: count("Handle") == old(count("Handle")) ==> arg0 == "GET /api/v1/notes/{id}"
+//@   at-call Handle requires pattern2: count("Handle") == old(count("Handle")) + 1 ==> arg0 == "PUT /api/v1/notes/{id}"
+//@   at-call Handle requires pattern3: count("Handle") == old(count("Handle")) + 2 ==> arg0 == "POST /api/v1/notes/list"
+//@   at-call Handle requires own_handler: arg1 == lastRetIface("BindingMiddleware")
+
+//@ emitted func BindingMiddleware(next any, serviceHeaders any, methodHeaders any, pathParams any, queryParams any, httpMethod string, errorHandler any) (h nethttp.Handler)
+//@ emitted func genericHandler(serve any, errorHandler any) (h nethttp.HandlerFunc)
+//@ emitted func getConfiguration(options any) (c *serverConfiguration)
+//@   ensures c != nil
+
+// Body decoding (C11): a request is only reported as decoded when a decoder accepted the whole body.
+//@ emitted func bindDataFromJSONRequest(r *nethttp.Request, toBind any) (err error)
+//@   ensures read_once: count("ReadAll") == old(count("ReadAll")) + 1
+//@   ensures decoded: err == nil ==> len(lastRetAs("ReadAll", []byte)) == 0 || (count("UnmarshalJSON") == old(count("UnmarshalJSON")) + 1 && lastErrNil("UnmarshalJSON")) || (count("protojson.Unmarshal") == old(count("protojson.Unmarshal")) + 1 && lastErrNil("protojson.Unmarshal"))
+//@   at-call UnmarshalJSON requires whole_body: arg0 == lastRetAs("ReadAll", []byte)
+//@   at-call protojson.Unmarshal requires whole_body: arg0 == lastRetAs("ReadAll", []byte)
+//@   at-call protojson.Unmarshal requires no_custom_decoder: count("UnmarshalJSON") == old(count("UnmarshalJSON"))
+
+//@ emitted func bindDataFromBinaryRequest(r *nethttp.Request, toBind any) (err error)
+//@   ensures read_once: count("ReadAll") == old(count("ReadAll")) + 1
+//@   ensures decoded: err == nil ==> len(lastRetAs("ReadAll", []byte)) == 0 || (count("proto.Unmarshal") == old(count("proto.Unmarshal")) + 1 && lastErrNil("proto.Unmarshal"))
+//@   at-call proto.Unmarshal requires whole_body: arg0 == lastRetAs("ReadAll", []byte)
